@@ -271,6 +271,113 @@ def zoomP (a : Nat) (out : Option Nat) (zo : Option ZOut) (oshape : List Nat) (s
       .ok o (write o (s.val tmp) s)
   | _, _ => .raise .contig s
 
+/-! ### Round 4: `out` aliased to an input (the `np.may_share_memory` guards of the wrappers)
+
+Buffer identity stands for "may share memory": every view of a buffer carries the identity of the buffer it was carved from,
+so `np.may_share_memory(x, y)` is `x == y` on the heap. An out-of-place native kernel reads its operands WHILE it writes
+its result; an operand that is the result buffer itself is therefore read partly overwritten, and as far as the result is
+concerned its content is unspecified (`undef`). -/
+
+/-- what a kernel that is writing buffer `o` sees in operand buffer `b` -/
+def readWhile (s : St) (o b : Nat) : Val := if b = o then .undef else s.val b
+
+/-- an out-of-place native kernel `kernel(a, bc, o)` -/
+def kernelWrite (op : Op) (a bc o : Nat) (s : St) : St :=
+  write o (.ap op (readWhile s o a) (readWhile s o bc)) s
+
+/-- `if np.may_share_memory(x, o): x = x.copy()`; `guard = false` is the wrapper without that statement -/
+def unalias (guard : Bool) (x o : Nat) (s : St) : R Nat :=
+  if guard && x == o then alloc (s.desc x) (s.val x) s else .ok x s
+
+/-- a single-pass wrapper as of round 4:
+`output = _get_output(A, out, dtype); if np.may_share_memory(A, output): A = A.copy();
+[if np.may_share_memory(Bc, output): Bc = Bc.copy();] return kernel(A, Bc, output)`
+(dilate, erode, locmax/locmin/regmax/regmin, majority_filter, hitmiss, convolve, convolve1d on its fast path,
+median/mean/rank filter, template_match, border(s), shift, zoom). The second operand is protected either by a guard of
+its own in the wrapper (erode, dilate, template_match) or because the native filter iterator copies the filter into its
+own tables before the first store (`new_filter_data`, offsets: convolve, rank/median/mean filter, locmin_max, regmin_max,
+hitmiss, border(s)) — both are a private copy taken before `out` is written; `guard = false` drops both. -/
+def kernel1G (guard : Bool) (op : Op) (a bc : Nat) (out : Option Nat) (dtype : Option Nat) (s : St) : R Nat :=
+  (getOut a out dtype s).bind fun o s =>
+  (unalias guard a o s).bind fun a' s =>
+  (unalias guard bc o s).bind fun bc' s =>
+  .ok o (kernelWrite op a' bc' o s)
+
+/-- `if np.may_share_memory(Bc, out): Bc = Bc.copy()` in front of a two-pass wrapper (`out` may be `None`) -/
+def unaliasOpt (guard : Bool) (x : Nat) (out : Option Nat) (s : St) : R Nat :=
+  match out with
+  | some o => unalias guard x o s
+  | none => .ok x s
+
+/-- `open` over the guarded `erode`/`dilate` -/
+def openGP (guard : Bool) (f bc : Nat) (out : Option Nat) (s : St) : R Nat :=
+  (unaliasOpt guard bc out s).bind fun bc s =>
+  (kernel1G guard .erode f bc out none s).bind fun eroded s =>
+  (alloc (s.desc eroded) (s.val eroded) s).bind fun tmp s =>
+  kernel1G guard .dilate tmp bc (some eroded) none s
+
+/-- `close` over the guarded `dilate`/`erode` -/
+def closeGP (guard : Bool) (f bc : Nat) (out : Option Nat) (s : St) : R Nat :=
+  (unaliasOpt guard bc out s).bind fun bc s =>
+  (kernel1G guard .dilate f bc out none s).bind fun dilated s =>
+  (alloc (s.desc dilated) (s.val dilated) s).bind fun tmp s =>
+  kernel1G guard .erode tmp bc (some dilated) none s
+
+/-- `cerode` as of round 4: `f = maximum(f, g); out = _get_output(f, out); if may_share_memory(g, out): g = g.copy();
+f = _morph.erode(f, Bc, out); return np.maximum(f, g, out=f)` (the final `maximum` is an element-wise ufunc: in place is fine) -/
+def cerodeGP (guard : Bool) (f g bc : Nat) (out : Option Nat) (s : St) : R Nat :=
+  (alloc (s.desc f) (.ap .maximum (s.val f) (s.val g)) s).bind fun f1 s =>
+  (getOut f1 out none s).bind fun o s =>
+  (unalias guard g o s).bind fun g' s =>
+  (unalias guard bc o s).bind fun bc s =>
+  let s := kernelWrite .erode f1 bc o s
+  .ok o (write o (.ap .maximum (s.val o) (s.val g')) s)
+
+/-- `subm` as of round 4: `out = _get_output(a, out); if out is not a: (if may_share_memory(out, b): b = b.copy()); out[:] = a;
+return _morph.subm(out, b)` — the native `subm` works in place on its first argument (element-wise) -/
+def submGP (guard : Bool) (a b : Nat) (out : Option Nat) (s : St) : R Nat :=
+  (getOut a out none s).bind fun o s =>
+  if o ≠ a then
+    (unalias guard b o s).bind fun b' s =>
+    let s := write o (s.val a) s
+    .ok o (write o (.ap .subm (s.val o) (s.val b')) s)
+  else .ok o (write o (.ap .subm (s.val o) (s.val b)) s)
+
+/-- `tophat_close`: `out = _get_output(f, out); fc = close(f, Bc); return subm(fc, f, out=out)` -/
+def tophatCloseGP (guard : Bool) (f bc : Nat) (out : Option Nat) (s : St) : R Nat :=
+  (getOut f out none s).bind fun o s =>
+  (closeGP guard f bc none s).bind fun fc s =>
+  submGP guard fc f (some o) s
+
+/-- `tophat_open`: `out = _get_output(f, out); fo = open(f, Bc); return subm(f, fo, out=out)` -/
+def tophatOpenGP (guard : Bool) (f bc : Nat) (out : Option Nat) (s : St) : R Nat :=
+  (getOut f out none s).bind fun o s =>
+  (openGP guard f bc none s).bind fun fo s =>
+  submGP guard f fo (some o) s
+
+/-- "store, then in-place kernel" wrappers (`label`: `output[:] = (array != 0); _labeled.label(output, Bc)`;
+`spline_filter(1d)`: `output[...] = array; _interpolate.spline_filter1d(output, …)`): the whole-buffer store is
+element-wise (a self-assignment when `out` is the input) and the kernel then only works on `output` (and, for `label`, reads
+the structuring element, which the wrapper copies first when it shares memory with `output`) -/
+def inplaceP (guard : Bool) (op : Op) (a bc : Nat) (out : Option Nat) (dtype : Option Nat) (s : St) : R Nat :=
+  (getOut a out dtype s).bind fun o s =>
+  (unalias guard bc o s).bind fun bc s =>     -- `label`: `if np.may_share_memory(Bc, output): Bc = Bc.copy()` before the store
+  let s := write o (s.val a) s
+  .ok o (write o (.ap op (s.val o) (readWhile s o bc)) s)
+
+/-- the whole flow of `hitmiss` (round 4): its hand-written validation (`hitmissOut`; the first failing test in source order:
+shape, contiguity, dtype), the uint8 view of a bool buffer (same buffer identity), the aliasing guard
+`if np.may_share_memory(input, out): input = input.copy()`, then the native kernel -/
+def hitmissP (guard : Bool) (inp bc : Nat) (out : Option Nat) (s : St) : R Nat :=
+  match hitmissOut (s.desc inp) (out.map s.desc), out with
+  | .fresh, _ =>
+    (alloc (s.desc inp) .undef s).bind fun o s => .ok o (kernelWrite .kernel inp bc o s)
+  | .useOut, some o | .useView, some o =>
+    (unalias guard inp o s).bind fun inp' s => .ok o (kernelWrite .kernel inp' bc o s)
+  | _, some o =>
+    .raise (if (s.desc o).shape ≠ (s.desc inp).shape then .shape else if !(s.desc o).ccontig then .contig else .dtype) s
+  | _, none => .raise .dtype s
+
 /-! ### initial states -/
 
 /-- heap at call time: inputs `0 … k-1` (content `inp i`), then the user's `out` (content `old`) -/
@@ -337,6 +444,36 @@ def handle (a : Args) : String :=
       let zo : Option ZOut := out.map fun o => { desc := o, isArray := true, writeable := a.nat "owrite" == 1 }
       s!"dec={reprStr (zoomDecision arr zo)} {showR one out (zoomP 0 (outId one out) zo (a.nats "zshape") (initSt one out))}".replace "Mahotas.C09.ZDecision." ""
     | f => s!"error=unknown-flow-{f}"
+  | "alias" =>
+    -- Round 4: `out` IS input buffer `i`; answer: does the run return that buffer, and does it hold what the run without out returns?
+    let fn := a.str "fn"
+    let i := a.nat "i"
+    let g := a.nat "guard" == 1
+    let bcd : Desc := if a.has "bdt" then descOf a "b" else arr
+    let two := [arr, bcd]
+    let three := [arr, arr, bcd]
+    let dt : Option Nat := if a.has "dt" then some (a.nat "dt") else none
+    let run : Option (Option Nat → St → R Nat) × List Desc := match fn with
+      | "kernel" => (some (fun o => kernel1G g .kernel 0 1 o dt), two)
+      | "open" => (some (openGP g 0 1), two)
+      | "close" => (some (closeGP g 0 1), two)
+      | "cerode" => (some (cerodeGP g 0 1 2), three)
+      | "subm" => (some (submGP g 0 1), two)
+      | "tophat_close" => (some (tophatCloseGP g 0 1), two)
+      | "tophat_open" => (some (tophatOpenGP g 0 1), two)
+      | "inplace" => (some (fun o => inplaceP g .kernel 0 1 o dt), two)
+      | "hitmiss" => (some (hitmissP g 0 1), two)
+      | "gaussian" => (some (fun o => gaussRepairedP 0 1 o arr.shape.length), two)
+      | _ => (none, two)
+    match run with
+    | (none, _) => s!"error=unknown-alias-flow-{fn}"
+    | (some P, inputs) =>
+      let base := match P none (initSt inputs none) with
+        | .ok b s => some (s.val b)
+        | .raise _ _ => none
+      match P (some i) (initSt inputs none) with
+      | .ok b s => s!"res=ok ret={if b == i then "out" else "fresh"} val={showVal (s.val b)} same={if some (s.val b) == base then 1 else 0}"
+      | .raise r _ => s!"res=raise why={r.name}"
   | k => s!"error=unknown-kind-{k}"
 
 end Mahotas.C09
